@@ -127,6 +127,16 @@ PROPS = {
         ],
         "assumptions": [],
     },
+    "C11": {
+        "level": "model_checking",
+        "technique": "explicit-state search over request histories against the real stateful handler under virtual time, with a reference session table checked after every step",
+        "claim": "all histories (exhaustive up to the shallow depth, state-deduplicated beyond) over 38 operations - POST initialize as anonymous/u1/u2, POST tools/call / GET / DELETE with each issued (live or dead) or an unknown session id as each user, a POST that stays in flight, handler release, server-side close, advances of timeout-1ms / 1ms / timeout: statuses (404 once dead for every method, 403 for a foreign user with no effect, 200/204 otherwise), ids minted only by initialize and never reissued, Server.Sessions() and the handler's table equal the reference set after every step, idle timeout fires iff a session had no POST in progress for a full timeout; stateless endpoint: no session ids issued or honoured, GET/DELETE/PUT answered 405",
+        "note": "two sessions, two users; DELETE/close while a POST is in flight is not explored (Close waits for the handler); histories beyond the stated depth are outside the bound",
+        "parts": [
+            {"pkg": "mcp", "mode": "plain", "test": "TestVerifC11", "shards": 1, "gomaxprocs": 16, "time_s": {"quick": 150, "thorough": 1500}},
+        ],
+        "assumptions": ["the idle timer uses package time (virtualised by the bubble)"],
+    },
     "C12": {
         "level": "model_checking",
         "engine": "explore (bounded-exhaustive enumeration)",
